@@ -223,4 +223,10 @@ theorem de_morgan (D : Nat) (hD : D ≤ 29) (a b : List Cell) (ha : WF D a) (hb 
   obtain ⟨l, hl, h⟩ := de_morgan_or_not D hD a b ha hb hra hrb
   exact ⟨l, hl, fun x hx => by unfold mem; rw [h x hx]⟩
 
+/-- **`xor` is commutative on plain MOCs as a STRUCTURAL equality** (same entries, both computed) -/
+theorem xor_comm (A B : BMOC) (D : Nat) (hmax : max A.dmax B.dmax = D) (hD : D ≤ 29)
+    (hwA : WF D A.cells) (hwB : WF D B.cells) (hrA : ∀ c ∈ A.cells, InR c) (hrB : ∀ c ∈ B.cells, InR c)
+    (mA : IsMoc A.cells) (mB : IsMoc B.cells) : BMOC.xor A B = BMOC.xor B A ∧ (BMOC.xor A B).isSome :=
+  bmoc_xor_comm_moc A B D hmax hD hwA hwB hrA hrB mA mB
+
 end Hpx.C07
